@@ -763,9 +763,31 @@ func (x *c12exec) run(e common.Env, p *common.Part) *c12fail {
 			ctx, cancel := context.WithTimeout(context.Background(), x.dl(6000))
 			var r1, r2 callRes
 			var dup sync.WaitGroup
+			var dupReturned int32
 			dup.Add(2)
-			go func() { defer dup.Done(); o, e := x.sign(ctx, victim, op.Topic); r1 = callRes{victim, o, e} }()
-			go func() { defer dup.Done(); o, e := x.sign(ctx, victim, op.Topic); r2 = callRes{victim, o, e} }()
+			// the session of whichever call is admitted is kept LIVE (every continuation is held at its start) until the other call
+			// has returned: on a loaded machine the admitted session could otherwise be over before the other call gets to its
+			// admission check, which would then be a sequence of two calls and no duplicate at all
+			x.setHold("sign.callbackStart")
+			go func() {
+				defer dup.Done()
+				o, e := x.sign(ctx, victim, op.Topic)
+				r1 = callRes{victim, o, e}
+				atomic.AddInt32(&dupReturned, 1)
+			}()
+			go func() {
+				defer dup.Done()
+				o, e := x.sign(ctx, victim, op.Topic)
+				r2 = callRes{victim, o, e}
+				atomic.AddInt32(&dupReturned, 1)
+			}()
+			go func() {
+				deadline := time.Now().Add(x.dl(5000))
+				for atomic.LoadInt32(&dupReturned) == 0 && time.Now().Before(deadline) {
+					time.Sleep(200 * time.Microsecond)
+				}
+				x.release()
+			}()
 			var others []uint16
 			for _, u := range s {
 				if u != victim {
